@@ -146,8 +146,11 @@ impl CoreDID {
     while let Some(c) = chars.next() {
       match c {
         '%' => {
+          // pct-encoded = "%" HEXDIG HEXDIG; `u8::from_str_radix` would also take a sign or a single digit.
           let digits = chars.clone().take(2).collect::<String>();
-          u8::from_str_radix(&digits, 16).map_err(|_| Error::InvalidMethodId)?;
+          if digits.len() != 2 || !digits.chars().all(|digit| digit.is_ascii_hexdigit()) {
+            return Err(Error::InvalidMethodId);
+          }
           chars.next();
           chars.next();
         }
